@@ -140,6 +140,9 @@ class Oracles:
             self._c09_state(env.current_state, post)
             if first:
                 self._c09_decode_initial(env.current_state)
+            # the readable decoders must agree with the documented layout
+            # from the first state on (not only at query points)
+            self._c09_roundtrip(env.current_state)
             if obs is not None:
                 self._c09_obs_shape(obs)
         if self.P("C10") and obs is not None:
@@ -194,17 +197,20 @@ class Oracles:
         if self.P("C13"):
             comp = self.transition(cur, obj, plain_x, draws, tag="companion")
             for e in interpose or ():
-                st2 = sim.states.get(e["src"])
+                st2 = cur if e["src"] == "cur" else sim.states.get(e["src"])
                 if st2 is None:
                     continue
                 p2, o2 = sim.resolve(e)
                 if o2 is None:
                     continue
                 sim.counters.hit("fault.interposed_lookahead")
-                self.transition(st2, o2,
-                                p2 if sim.table.flat else list(p2),
-                                [float.fromhex(h) for h in e["u"]],
-                                background=True, tag="interposed")
+                r2 = self.transition(st2, o2,
+                                     p2 if sim.table.flat else list(p2),
+                                     [float.fromhex(h) for h in e["u"]],
+                                     background=True, tag="interposed")
+                if "sid" in e:
+                    sim.states[e["sid"]] = r2["next_state"]
+                    sim.next_sid = max(sim.next_sid, e["sid"] + 1)
         pre, pre_t = self.pre_of(cur)
         sim.rnd.push(draws)
         try:
